@@ -93,10 +93,13 @@ class C17(Config):
               "Local Open Scope Z_scope.")
     bin = "c17"
     release_too = True
-    n_tags = 68
+    n_tags = 72
     classes = {1: "C17-classify-confirmatory-flip"}
     shard_size = 1500
-    rule = ("rebuilds of expired transfers (engine.rs rebuild_expired_transfer / _unsigned over a backend holding real wallet notes): single rebuilds "
+    rule = ("parameter plumbing: SchedulingParams::new / new_with_default_distributions accessors and WalletMigration::scheduling_params over a MockWalletDb "
+            "with and without with_scheduling_delays (distinct transfer / preparation distributions), both schedules then drawn under the returned parameters "
+            "with the replaying RNG and checked against the cap configured for their own slot; "
+            "rebuilds of expired transfers (engine.rs rebuild_expired_transfer / _unsigned over a backend holding real wallet notes): single rebuilds "
             "with the tip at offsets -600..0 around multiples of EXPIRY_MODULUS (every 4th offset in quick, every offset in thorough) and cohorts of "
             "2..8 transfers rebuilt back to back at one tip, one case per rebuild (48 recorded stream words, then an unrecorded ChaCha tail for PCZT building/signing); "
             "schedule shifts (state.rs shift_schedule) driven through the public advance_migration overdue path on small states: "
